@@ -8,6 +8,7 @@ models invoked literally and by boxed invocation and requiring knowledge models 
 input / encapsulated / output decisions) serialised to DMN XML, every invocable invoked through evaluate_invocable with
 several input contexts; compared with impl_invoke / spec_invoke instantiated with the tiny evaluator `teval`."""
 import json
+import os
 import re
 
 from vlib import core
@@ -367,6 +368,14 @@ def norm(j):
     return ('?', json.dumps(j))
 
 
+def big(v):
+    if isinstance(v, int):
+        return abs(v) >= 10 ** 30
+    if isinstance(v, tuple) and v and v[0] in ('l', 'c'):
+        return any(big(x[1] if v[0] == 'c' else x) for x in v[1])
+    return False
+
+
 def term_val(x):
     if isinstance(x, App):
         if x.name == 'VNull':
@@ -397,25 +406,24 @@ def run_graphs(ctx, graphs, tag='g'):
         reqs.append({'xml': xml_of(G, rng), 'calls': calls})
         index.append(idx)
         order = order_of(G)
-        defs.append('Definition G%d : graph := %s.\nDefinition O%d : list N := %s.\n' % (gi, coq_graph(G), gi, nl(order)))
         fuel = len(G) + 1
-        terms.append('(topo_ok G%d O%d, callable_ok G%d, map (fun id => (id, closure_names G%d O%d id)) O%d)' % (gi, gi, gi, gi, gi, gi))
-        for (i, label, d, base) in idx:
-            terms.append('(impl_invoke teval true G%d %d %d %s, spec_invoke teval true G%d O%d %d %s)' % (gi, fuel, i, coq_env(d), gi, gi, i, coq_env(d)))
+        # one self-contained term per graph: (topo_ok, callable_ok, closure names, [(impl_invoke, spec_invoke) per call])
+        terms.append('(let G := %s in let O := %s in (topo_ok G O, callable_ok G, map (fun id => (id, closure_names G O id)) O, [%s]))'
+                     % (coq_graph(G), nl(order), '; '.join('(impl_invoke teval true G %d %d %s, spec_invoke teval true G O %d %s)' % (fuel, i, coq_env(d), i, coq_env(d))
+                                                           for (i, label, d, base) in idx)))
     impl = ctx.run_impl('model', reqs, shards=16)
-    model = ctx.run_model(HEADER + ''.join(defs), terms, shard_size=max(40, len(terms) // 16 + 1), tag=tag)
-    out, t = [], 0
+    model = ctx.run_model(HEADER, terms, shard_size=max(10, len(terms) // 16 + 1), tag='%s%d' % (tag, os.getpid()))
+    out = []
     for gi, G in enumerate(graphs):
-        head = model[t]
-        t += 1
+        topo, cok, cl, vals = model[gi]
+        head = (topo, cok, cl)
         ans = impl[gi]
         ok = isinstance(ans, dict) and ans.get('build') == 'ok' and len(ans.get('results', [])) == len(index[gi])
         rows = []
         for ci, (i, label, d, base) in enumerate(index[gi]):
             rows.append({'id': i, 'label': label, 'input': d, 'base': base, 'call': reqs[gi]['calls'][ci],
                          'impl': ans['results'][ci] if ok else {'load': ans if not isinstance(ans, dict) else {k: ans.get(k) for k in ('parse', 'build', 'build_msg', 'parse_msg', 'crash', 'panic')}},
-                         'model': model[t]})
-            t += 1
+                         'model': vals[ci]})
         out.append({'G': G, 'xml': reqs[gi]['xml'], 'head': head, 'rows': rows})
     return out
 
@@ -448,6 +456,11 @@ def judge(ctx, res, stats):
                 break
             got = norm(row['impl']['v'])
             im, sp = term_val(row['model'][0]), term_val(row['model'][1])
+            if big(sp) or big(im):
+                # beyond 30 digits the implementation's decimal128 arithmetic rounds (C02's subject); all generated arithmetic is over
+                # non-negative integers with + and *, so a result below the bound has no rounded intermediate that matters
+                stats['skipped: number beyond 10^30'] = stats.get('skipped: number beyond 10^30', 0) + 1
+                continue
             stats[n['kind']] = stats.get(n['kind'], 0) + 1
             stats['in:' + row['label']] = stats.get('in:' + row['label'], 0) + 1
             if got is not None:
@@ -475,8 +488,8 @@ def run(ctx):
     ctx.build_harness()
     rng = ctx.rng
     graphs = witness_graphs()
-    for _ in range(ctx.pick(260, 6000)):
-        graphs.append(gen_graph(rng, rng.randint(4, ctx.pick(10, 25))))
+    for _ in range(ctx.pick(260, 2500)):
+        graphs.append(gen_graph(rng, rng.randint(4, ctx.pick(10, 14))))
     stats = {}
     res = run_graphs(ctx, graphs)
     judge(ctx, res, stats)
@@ -490,7 +503,7 @@ def run(ctx):
              'optional result entry, nested boxed values), boxed invocation and relation logic; knowledge models with 1-2 parameters invoked by f(x) and by boxed invocation, requiring knowledge models and '
              'decision services; decision services with input / encapsulated / output decisions (one or two outputs) required as functions; every invocable is invoked with: all relevant inputs, '
              'the same plus entries named like nodes outside its requirement closure or fresh names (non-interference, judged on the implementation alone), a partial input, the empty input, and an '
-             'input that names a required decision; plus hand-written witnesses (context entry leak, service required by a knowledge model, diamond through a service). non-trivial = non-null result' % ctx.pick(10, 25),
+             'input that names a required decision; plus hand-written witnesses (context entry leak, service required by a knowledge model, diamond through a service). non-trivial = non-null result' % ctx.pick(10, 14),
         extra_cov={'exhaustive': False, 'graphs': len(graphs), 'graph_sizes': sizes, 'histogram': stats},
         assumptions=['logic is drawn from the modelled expression language (numbers, + *, names, calls, boxed context / invocation / relation); values are small integers',
                      'element and variable names are unique within a model; input data are number-typed and receive numbers; output variables are untyped',
